@@ -261,7 +261,9 @@ PLANS["C08"] = dict(
 
 PLANS["C09"] = dict(
     mc=[("c09", dict(Hosts='{"h1"}', Kinds='{"badhl", "other", "timeout"}', MaxIn=4, MaxT=6, Retries=2, AllowCancel="FALSE"),
-         dict(MaxIn=5, MaxT=7, Retries=3))],
+         dict(MaxIn=5, MaxT=7, Retries=3)),
+        ("c09mon", dict(MonitorMode="TRUE", Hosts='{"h1", "unspec2"}', Kinds='{"badhl", "other", "timeout", "rasame"}', MaxIn=5, MaxT=4, Retries=2),
+         dict(MaxIn=6, Retries=3))],
     env=[("a", dict(Srcs='{"h1"}', Kinds='{"badhl", "ns", "na"}', MaxEv=4, MaxT=3), dict(MaxEv=5, MaxT=4),
           [dict(DEF, hl=[1, 0, 254, 64, 128]), dict(cfg=dict(DEF["cfg"], mode="mon"), hl=[254, 1]), dict(UNI, hl=[0])])],
     cap_quick=1500, cap_thorough=12000,
@@ -299,7 +301,9 @@ PLANS["C09"]["fixed"] = _c09_fixed()
 PLANS["C10"] = dict(
     write_evidence=False,
     liveness=[("fault", dict(MinDelay=3, MaxRADelay=1, MinIv=4, MaxIv=4, Hosts='{"h1"}', Kinds='{"readerr"}', MaxIn=1, MaxT=5, MaxHolds=1, WriteFaults="TRUE"), dict(MaxIn=2, MaxT=6, LinkFaults="TRUE", Kinds='{"readerr", "timeout"}'))],
-    mc=[("c10", dict(Hosts='{"h1"}', Kinds='{"timeout", "readerr"}', MaxIn=3, MaxT=6, Retries=2, WriteFaults="TRUE",
+    mc=[("c10mon", dict(MonitorMode="TRUE", Hosts='{"h1"}', Kinds='{"timeout", "readerr", "badhl"}', MaxIn=4, MaxT=5, Retries=2, LinkFaults="TRUE"),
+         dict(MaxIn=5, MaxT=6)),
+        ("c10", dict(Hosts='{"h1"}', Kinds='{"timeout", "readerr"}', MaxIn=3, MaxT=6, Retries=2, WriteFaults="TRUE",
                      LinkFaults="TRUE", MaxHolds=0), dict(MaxIn=4, MaxT=6, MaxHolds=0))],
     env=[("a", dict(Srcs='{"h1", "unspec"}', Kinds='{"timeout", "readerr_other", "readerr_sys", "link"}',
                     FailDsts='{"h1", "allnodes"}', Terms="{TRUE}", MaxEv=3, MaxT=7), dict(MaxEv=4, MaxT=8),
